@@ -362,6 +362,8 @@ MANIFEST = {
                   "length), exactly one module directive before any entry, title/module = [prefix + sep +] relative path with the "
                   "extension options applied (a lone file: base name), @module NAME override, module doc inside the directive and "
                   "never under the following command, pairwise distinct titles; and the title block + module directive must be "
-                  "byte-identical across 3-5 placements of the same tree.",
+                  "byte-identical across 3-5 placements of the same tree.  Placements may document another directory first in the same "
+                  "invocation and may find the previous placement's pages - overwritten with foreign text and stamped in the future - "
+                  "still in the output directory.",
     "level_note": "trusted: the line-based page reader; both '/'-kept and '/'-replaced forms of nested relative paths are accepted",
 }
